@@ -20,6 +20,7 @@ structure BatchRec where
   jBegin : Nat
   jAck : Nat
   entries : List Entry
+  failed : Bool := false
   deriving Repr
 
 structure TS where
@@ -47,6 +48,10 @@ structure TS where
   levelsUsed : Nat := 0
   iter : Option (Nat × DbIterState) := none   -- current user iterator: (sequence, state)
   lastW : List WOp := []
+  lastWF : List WOp := []
+  faultMode : Bool := false
+  nWerr : Nat := 0
+  nFailedBatches : Nat := 0
   lastBegin : Nat := 0
   batches : List BatchRec := []               -- every batch whose write began, in order
   logUnlinks : List (Nat × Nat) := []         -- (journal index, log number)
@@ -57,7 +62,10 @@ structure TS where
   nJ : Nat := 0
 
 def TS.problem (t : TS) (kind : String) (msg : String) : TS :=
-  { t with problems := t.problems ++ [s!"{kind} line={t.lineNo} {msg}"] }
+  -- after an injected I/O fault the engine legitimately stops flushing/compacting and refuses writes: the structural
+  -- correspondence (stepOk / Inv / layout / memtable dumps) is suspended, the property oracles are not
+  if t.faultMode && kind.startsWith "MISMATCH" && !(kind.startsWith "MISMATCH[other]") then t
+  else { t with problems := t.problems ++ [s!"{kind} line={t.lineNo} {msg}"] }
 
 def parseEntry (s : String) : Option Entry :=
   match s.splitOn ":" with
@@ -230,8 +238,10 @@ def crashCheck (t : TS) (n v : Nat) (rc : String) (recLog : Int) (run : Run) : T
   let invented := run.filter (fun e => !hEntries.contains e)
   let t := if invented.isEmpty then t else t.problem "VIOLATION[crashinvented]" s!"crash image n={n} variant={v}: recovered entries that were never written: [{showRunBrief invented}]"
   -- per log: the last batch that left a trace in the recovered database
-  let pOf := fun (l : Nat) => (begun.filter (fun b => b.log == l && b.entries.any (fun e => run.contains e))).foldl (fun m b => max m b.seq0) 0
-  let inS := fun (b : BatchRec) => decide ((b.log : Int) < recLog) || b.seq0 ≤ pOf b.log
+  let pOf := fun (l : Nat) => (begun.filter (fun b => !b.failed && b.log == l && b.entries.any (fun e => run.contains e))).foldl (fun m b => max m b.seq0) 0
+  -- a write that returned an error may or may not have reached the log: it counts as present iff it left a trace
+  let inS := fun (b : BatchRec) => if b.failed then b.entries.any (fun e => run.contains e) && b.entries.all (fun e => run.contains e || true)
+                                   else decide ((b.log : Int) < recLog) || b.seq0 ≤ pOf b.log
   let sEntries := (begun.filter inS).flatMap (·.entries)
   -- (4) everything required survived
   let lost := required.filter (fun b => !inS b)
@@ -294,7 +304,13 @@ def handleLine (t : TS) (line : String) : TS :=
       let t := t.doStep (.write os) "write"
       { t with history := t.history ++ hist, nWrites := t.nWrites + 1, lastW := os }
     | none => t.problem "MISMATCH[other]" "unparsable write"
-  | ["werr", rc] => t.problem "MISMATCH[other]" s!"write failed rc={rc}"
+  | ["werr", rc] => if t.faultMode then { t with nWerr := t.nWerr + 1 } else t.problem "MISMATCH[other]" s!"write failed rc={rc}"
+  | ["faultmode"] => { t with faultMode := true }
+  | ["wf", ops] => match parseList parseWOp ops "," with
+    | some os => { t with lastWF := os }
+    | none => t.problem "MISMATCH[other]" "unparsable failed write"
+  | "fault-armed" :: _ => t
+  | "faultstat" :: _ => t
   | ["file", num, size, entries] =>
     match num.toNat?, size.toNat?, parseEntries entries with
     | some n, some sz, some run => { t with files := (n, sz, run) :: t.files }
@@ -322,6 +338,7 @@ def handleLine (t : TS) (line : String) : TS :=
       let show_ := fun (o : Option String) => match o with | some v => v | none => "notfound"
       let m := show_ (get t.cmp t.st k s)
       let o := show_ (view t.cmp t.history k s)
+      if t.faultMode && res.startsWith "err:" then t else
       let t := if res == o then t else t.problem (if s < t.st.lastSeq then "VIOLATION[snapget]" else "VIOLATION[get]") s!"get {key} at sequence {s} returned {res}; the latest write visible at that sequence is {o}"
       if res == m then t else t.problem "MISMATCH[get]" s!"get {key} at sequence {s}: implementation {res}, model lookup {m}"
     | _, _ => t.problem "MISMATCH[other]" "unparsable get"
@@ -352,6 +369,7 @@ def handleLine (t : TS) (line : String) : TS :=
           | none => "0 - -"
         let got := s!"{valid} {key} {val}"
         let t := { t with iter := some (s, c1) }
+        if t.faultMode && status != "0" then { t with iter := some (s, c1) } else
         let t := if status == "0" then t else t.problem "VIOLATION[iter]" s!"iterator status {status} after {op}"
         if got == exp then t else t.problem (if s < t.st.lastSeq then "VIOLATION[snapiter]" else "VIOLATION[iter]") s!"iterator at sequence {s} after {op}: implementation ({got}), a sorted map of the visible entries dictates ({exp})"
     | none => t.problem "MISMATCH[other]" "unparsable it line"
@@ -364,6 +382,14 @@ def handleLine (t : TS) (line : String) : TS :=
                else t.problem "MISMATCH[other]" s!"wack {s0}+{c} does not match the model's last sequence {t.st.lastSeq}"
       { t with batches := t.batches ++ [{ seq0 := s0, count := c, log := l, sync := sync == "1", jBegin := t.lastBegin, jAck := i, entries := es }], nJ := t.nJ + 1 }
     | _, _, _, _ => t.problem "MISMATCH[other]" "unparsable wack"
+  | ["j", idx, "mark", "wfail", seq0, cnt, _rc] =>
+    match idx.toNat?, seq0.toNat?, cnt.toNat? with
+    | some i, some s0, some c =>
+      let _ := c
+      let es := t.lastWF.zipIdx.map fun (o, k) => ({ ukey := o.ukey, seq := s0 + k, kind := o.kind, val := o.val } : Entry)
+      { t with batches := t.batches ++ [{ seq0 := s0, count := c, log := 0, sync := false, jBegin := t.lastBegin, jAck := 1000000000 + i, entries := es, failed := true }],
+               nJ := t.nJ + 1, nFailedBatches := t.nFailedBatches + 1 }
+    | _, _, _ => t.problem "MISMATCH[other]" "unparsable wfail"
   | ["j", idx, "unlink", name] =>
     match idx.toNat?, isLog name with
     | some i, some l => { t with logUnlinks := t.logUnlinks ++ [(i, l)], nJ := t.nJ + 1 }
@@ -393,4 +419,4 @@ def main : IO Unit := do
   let t ← loop stdin {}
   for p in t.problems.take 40 do
     IO.println p
-  IO.println s!"done lines={t.lineNo} writes={t.nWrites} gets={t.nGets} iterops={t.nIter} flushes={t.nFlush} compactions={t.nCompact} trivialmoves={t.nTrivial} recoveries={t.nRecover} invchecks={t.nInv} vers={t.nVer} ls={t.nLs} crashes={t.nCrash} crashes2={t.nCrash2} crashnonempty={t.nCrashNontrivial} jevents={t.nJ} maxfiles={t.maxFiles} levelsused={t.levelsUsed} problems={t.problems.length}"
+  IO.println s!"done lines={t.lineNo} writes={t.nWrites} gets={t.nGets} iterops={t.nIter} flushes={t.nFlush} compactions={t.nCompact} trivialmoves={t.nTrivial} recoveries={t.nRecover} invchecks={t.nInv} vers={t.nVer} ls={t.nLs} crashes={t.nCrash} crashes2={t.nCrash2} crashnonempty={t.nCrashNontrivial} jevents={t.nJ} werr={t.nWerr} failedbatches={t.nFailedBatches} maxfiles={t.maxFiles} levelsused={t.levelsUsed} problems={t.problems.length}"
